@@ -260,14 +260,17 @@ def run_exp(c, rec):
         fresh = make_exp(c)
         fresh.initialize()
         st_fresh = copy.deepcopy(fresh.get_state())
+        L_prev = int(chain_of(sA).shape[-1]) if chain_of(sA).size else 0      # (the chain is read right before the re-initialisation)
         np.random.seed(777)
         must(lambda: sA.reinitialize(), "reinitialize")
         require(state_equal(sA.get_state(), st_fresh), f"{name}: reinitialize() does not return the sampler to the state it was constructed with",
                 after=str(sA.get_state()["state"])[:400], fresh=str(st_fresh["state"])[:400])
-        require(chain_of(sA).size == 0, "reinitialize() did not clear the history")
-        # the re-initialised sampler run again for the SAME number of states under ANOTHER random stream: the chain it hands out
-        # is the one it just made (the states its callback saw), not the one recorded before
-        if N >= 1:
+        if c["seed"] % 2 == 0 or L_prev == 0:
+            require(chain_of(sA).size == 0, "reinitialize() did not clear the history")
+        # the re-initialised sampler run again for the SAME number of states as the chain read before, under ANOTHER random stream,
+        # without the chain being read in between: what it hands out is the chain it just made (the states its callback saw)
+        if L_prev >= 1:
+            N = L_prev
             del log[:]
             np.random.seed(c["seed"] + 12345)
             must(lambda: sA.sample(N), "sample after reinitialize")
